@@ -29,6 +29,16 @@ fn from_spec(label: &str, name: &str, ty: Ty) -> Contributor {
     Contributor { label: label.to_string(), reqs: vec![(name.to_string(), Some(ty))], types, kinds: vec![kind] }
 }
 
+/// A contributor written by hand (the descriptor says what it requires): used where the SHAPE
+/// of the binary matters, e.g. one type index shared by several exports.
+fn from_wat(label: &str, name: &str, ty: Ty, text: &str) -> Contributor {
+    let bytes = mc_core::libs::wat(text).unwrap_or_else(|e| panic!("{label}: {e:?}"));
+    let mut types = Types::default();
+    let pkg = Package::from_bytes("c:contrib", None, bytes, &mut types).expect("contributor decodes");
+    let kind = types[pkg.ty()].imports[name];
+    Contributor { label: label.to_string(), reqs: vec![(name.to_string(), Some(ty))], types, kinds: vec![kind] }
+}
+
 fn from_wit(label: &str, wits: &[(&str, &str)], world: &str) -> Contributor {
     let bytes = component_from_wit(wits, world).unwrap_or_else(|e| panic!("{label}: {e:?}"));
     let mut types = Types::default();
@@ -79,6 +89,15 @@ world w {{ import j; }}"#
         // multi-digit components on an existing track (numeric, not textual, order)
         from_spec("i@0.2.10{f}", "a:b/i@0.2.10", i(&[("f", f0.clone())])),
         from_spec("i@1.10.0{f}", "a:b/i@1.10.0", i(&[("f", f0.clone())])),
+        // one type index shared by two exports (what a deduplicating encoder writes), and a
+        // contributor that agrees on the first of them and conflicts on the second
+        from_wat(
+            "i@0.2.3{g,f} sharing one type index",
+            "a:b/i@0.2.3",
+            i(&[("g", f0.clone()), ("f", f0.clone())]),
+            r#"(component (import "a:b/i@0.2.3" (instance (type $t (func)) (export "g" (func (type $t))) (export "f" (func (type $t))))))"#,
+        ),
+        from_spec("i@0.2.4{g,f:F1}", "a:b/i@0.2.4", i(&[("g", f0.clone()), ("f", f1.clone())])),
         // WIT-derived: interfaces that `use` types of other (merged) interfaces
         from_wit("wit j@1.0.0 uses i@0.2.0", &[("ab.wit", &ab("0.2.0")), ("cd.wit", &cd("1.0.0", "0.2.0"))], "w"),
         from_wit("wit j@1.1.0 uses i@0.2.1", &[("ab.wit", &ab("0.2.1")), ("cd.wit", &cd("1.1.0", "0.2.1"))], "w"),
